@@ -8,7 +8,7 @@
    Model: Lexer.v; files are render items (Writer.v items); specification side in LexSpec.v.
    with_records k r = the chunk k with its stored payload replaced by r, header unchanged.
    Hypothesis `k_crc k <> 0`: a chunk written without CRC (crc field 0) is never checked. *)
-From Mcap Require ConstsTie LayoutTie. (* regenerated ties to /repo's source that this property's model relies on *)
+From Mcap Require ConstsTie LayoutTie DecisionTieL. (* regenerated ties to /repo's source that this property's model relies on *)
 From Coq Require Import List NArith ZArith Bool.
 From Coq.Strings Require Import Byte.
 From Mcap Require Import Bytes GoSem Crc32 Records RecordsFacts Writer Lexer LexSpec LexerFactsB.
